@@ -238,14 +238,14 @@ func injectAttribute(tag string, fv reflect.Value, ft reflect.StructField, prefi
 
 	switch fv.Kind() {
 	case reflect.Uint, reflect.Uint8, reflect.Uint16, reflect.Uint32, reflect.Uint64:
-		u, err := strconv.ParseUint(val, 0, 0)
+		u, err := strconv.ParseUint(val, 0, fv.Type().Bits())
 		if err == nil {
 			fv.SetUint(u)
 			return nil
 		}
 		return errutil.Stack(err, "inject struct field %s error", ft.Name)
 	case reflect.Int, reflect.Int8, reflect.Int16, reflect.Int32, reflect.Int64:
-		i, err := strconv.ParseInt(val, 0, 0)
+		i, err := strconv.ParseInt(val, 0, fv.Type().Bits())
 		if err == nil {
 			fv.SetInt(i)
 			return nil
